@@ -34,14 +34,14 @@ def _cfg(params, calls):
     return dict(backend=params["backend"], n_workers=2, pre_dispatch=params.get("pre_dispatch", 2),
                 batch_size=params.get("batch_size", 1), return_as=params.get("return_as", "list"),
                 calls=calls, use_with=params.get("use_with", False), timeout=params.get("timeout"),
-                stuck=params.get("stuck", ()))
+                stuck=params.get("stuck", ()), stmt=params.get("stmt", False))
 
 
 def prepare(params):
     if "backend" not in params:
         return
     n0 = params.get("n0", 6)
-    o = parlib.run(_cfg(params, [dict(n_tasks=n0), dict(n_tasks=4)]), {})
+    o = parlib.run(_cfg(params, [dict(n_tasks=n0, fail_at=n0 - 1), dict(n_tasks=4)]), {})
     _BASE["steps"] = o.steps + 6
 
 
@@ -84,7 +84,7 @@ def ob_fail(f: int, n1: int, pos0: int, pos1: int, pk: int) -> bool:
     """
     pre: 0 <= f <= 9
     pre: 0 <= n1 <= 4
-    pre: -1 <= pos0 <= 600 and -1 <= pos1 <= 600
+    pre: -1 <= pos0 <= 3000 and -1 <= pos1 <= 3000
     pre: 0 <= pk <= 3
     post: _
     """
@@ -93,7 +93,7 @@ def ob_fail(f: int, n1: int, pos0: int, pos1: int, pk: int) -> bool:
     K = H.P("K", 1)
     steps = _BASE["steps"]
     H.assume(f < n0 and pos0 <= steps and pos1 <= steps)
-    if K < 2:
+    if K < 2 or H.P("stmt"):
         H.assume(n1 == 4 and pk <= 1)
     else:
         H.assume(n1 == 4 or n1 == 1)
@@ -217,6 +217,13 @@ def obligations(tier, seed):
                                "pre_dispatch": 2}, "timeout": 600 if tier == "quick" else 3400,
                     "bounds": "call 0: 6 tasks, failing task at any index; <=%d pre-emptions anywhere; 2x2 completion picks; "
                               "call 1: 1 or 4 tasks on the same object" % K})
+    if tier == "thorough":
+        for be, ra, uw in [("stub_noabort", "list", True), ("threading", "list", False)]:
+            obs.append({"name": "stmt_fail/%s/%s/with=%s" % (be, ra, uw), "fn": "ob_fail", "mode": "S",
+                        "params": {"backend": be, "return_as": ra, "use_with": uw, "K": 1, "n0": 4, "pre_dispatch": 2,
+                                   "stmt": True}, "timeout": 3400,
+                        "bounds": "statement-level switch points: call 0 with 4 tasks fails at any index, one pre-emption before "
+                                  "any statement, then a second call"})
     for be, ra in [("threading", "list"), ("loky", "generator"), ("stub_legacy", "list"), ("stub_noabort", "list")]:
         obs.append({"name": "iterfail/%s/%s" % (be, ra), "fn": "ob_iterfail", "mode": "S",
                     "params": {"backend": be, "return_as": ra, "n0": 8}, "timeout": 600,
